@@ -766,7 +766,7 @@ impl<'a> Judge<'a> {
                 if let Some(pn) = &e.local_parent {
                     let b = self.matched[mi].batch;
                     for (pi, pe) in self.m.erecs.iter().enumerate() {
-                        if pe.set_uid == e.set_uid && &pe.name == pn && pe.trace == e.trace && pe.root == e.root {
+                        if pe.set_uid == e.set_uid && pe.emit == e.emit && &pe.name == pn && pe.trace == e.trace && pe.root == e.root {
                             for &pmi in &self.by_erec[pi] {
                                 if self.matched[pmi].batch == b && self.matched[pmi].rec.id == r.parent {
                                     let p = self.matched[pmi].rec;
@@ -781,7 +781,7 @@ impl<'a> Judge<'a> {
             }
         }
         // siblings do not overlap (same set, same copy, same report call, same enclosing span)
-        let mut groups: BTreeMap<(usize, u128, String, Option<String>, usize), Vec<(usize, u64, u64, String)>> = BTreeMap::new();
+        let mut groups: BTreeMap<(usize, usize, u128, String, Option<String>, usize), Vec<(usize, u64, u64, String)>> = BTreeMap::new();
         for (ei, e) in self.m.erecs.iter().enumerate() {
             if !e.local || e.count != 1 || e.set_uid == 0 {
                 continue;
@@ -789,7 +789,7 @@ impl<'a> Judge<'a> {
             for &mi in &self.by_erec[ei] {
                 let r = self.matched[mi].rec;
                 groups
-                    .entry((e.set_uid, e.trace.0, e.root.clone(), e.local_parent.clone(), self.matched[mi].batch))
+                    .entry((e.set_uid, e.emit, e.trace.0, e.root.clone(), e.local_parent.clone(), self.matched[mi].batch))
                     .or_default()
                     .push((e.order, r.begin, r.begin + r.dur, e.name.clone()));
             }
@@ -806,19 +806,21 @@ impl<'a> Judge<'a> {
 
     fn sets(&self, out: &mut Vec<Finding>) {
         // (a) copies of one span (multi-parent span, or a local-span set under several parents)
-        let mut copies: BTreeMap<(usize, String), Vec<(usize, &Rec)>> = BTreeMap::new();
+        let mut copies: BTreeMap<(usize, String), Vec<(usize, &Rec, usize)>> = BTreeMap::new();
         for (ei, e) in self.m.erecs.iter().enumerate() {
             if e.count != 1 {
                 continue;
             }
             for &mi in &self.by_erec[ei] {
-                copies.entry((e.set_uid, e.name.clone())).or_default().push((self.matched[mi].batch, self.matched[mi].rec));
+                copies.entry((e.set_uid, e.name.clone())).or_default().push((self.matched[mi].batch, self.matched[mi].rec, ei));
             }
         }
         for ((uid, name), v) in &copies {
-            let (b0, r0) = v[0];
-            for &(b, r) in &v[1..] {
-                let what = if *uid == 0 { "multi-parent span" } else { "pushed local-span set" };
+            let (b0, r0, e0) = v[0];
+            for &(b, r, e1) in &v[1..] {
+                // two parents in one trace: the known mount-by-span-id weakness (K1) applies
+                let same_trace = self.m.erecs[e0].trace == self.m.erecs[e1].trace && self.m.erecs[e0].root == self.m.erecs[e1].root;
+                let what = if *uid == 0 { "multi-parent span" } else if same_trace { "local-span set pushed to two parents of one trace" } else { "pushed local-span set" };
                 if r.id != r0.id {
                     out.push(f("sets", format!("copies of a {what} have different span ids"), name.clone()));
                 }
@@ -888,7 +890,7 @@ impl<'a> Judge<'a> {
                 }
                 // against the delivered copies of the same set
                 if let Some(v) = copies.get(&(e.set_uid, e.name.clone())) {
-                    let (_, d) = v[0];
+                    let (_, d, _) = v[0];
                     if d.id != r.id {
                         out.push(f("sets", "to_span_records and the delivered copy disagree on the span id", e.name.clone()));
                     }
